@@ -300,10 +300,12 @@ def run_scenario(sc):
 
 # ---------------------------------------------------------------- per-row pipeline for the model correspondence
 def run_pipeline(case):
-    """lot_vectors_dense_internal / lot_vectors_sparse_internal on one row (euclidean metric, spherical_vectors=False)
-    and, separately, the plan of that row obtained by the same steps the kernel takes (normalise, truncate, cost
-    orientation, transport_plan) — the model is executed with this plan as input."""
-    metric = named_distances["euclidean"]
+    """lot_vectors_dense_internal / lot_vectors_sparse_internal on one row (euclidean metric with
+    spherical_vectors=False, or cosine metric with spherical_vectors=True when case["spherical"]) and, separately, the
+    plan of that row obtained by the same steps the kernel takes (normalise, truncate, cost orientation,
+    transport_plan) — the model is executed with this plan as input."""
+    sph = bool(case.get("spherical"))
+    metric = named_distances["cosine" if sph else "euclidean"]
     w = np.array(case["w"], dtype=np.float64)
     xs = np.array(case["xs"], dtype=np.float64).reshape(len(w), -1)
     q = np.array(case["q"], dtype=np.float64)
@@ -315,12 +317,12 @@ def run_pipeline(case):
         vs.append(np.ascontiguousarray(xs.copy()))
         ds.append(w.copy())
         out = L.lot_vectors_dense_internal(vs, ds, ys, q, metric=metric, max_distribution_size=mds, chunk_size=256,
-                                           spherical_vectors=False)[0]
+                                           spherical_vectors=sph)[0]
     else:
         indptr = np.array([0, len(w)], dtype=np.int32)
         indices = np.arange(len(w), dtype=np.int32)
         out = L.lot_vectors_sparse_internal(indptr, indices, w.copy(), xs.copy(), ys, q, metric=metric,
-                                            max_distribution_size=mds, chunk_size=256, spherical_vectors=False)[0]
+                                            max_distribution_size=mds, chunk_size=256, spherical_vectors=sph)[0]
     # the plan, by the kernel's own steps
     rd, rv = w.copy(), xs.copy()
     if rv.shape[0] > mds:
@@ -338,6 +340,32 @@ def run_pipeline(case):
     return {"out": tol_list(out), "plan": tol_list(plan), "p": tol_list(rd)}
 
 
+def run_sinkrow(case):
+    """sinkhorn_vectors_sparse_internal on one chunk and, separately, the scalings (u, v, K) of that chunk from the
+    same call the kernel makes (sinkhorn_plan_batch) — the model computes every row from its own column of u and v."""
+    D = np.array(case["distributions"], dtype=np.float64).reshape(case["b"], case["n"])
+    xs = np.array(case["xs"], dtype=np.float64).reshape(case["n"], case["d"])
+    q = np.array(case["q"], dtype=np.float64)
+    ys = np.array(case["ys"], dtype=np.float64).reshape(case["m"], case["d"])
+    cost = L.chunked_pairwise_distance(xs, ys, dist=named_distances["cosine"]).T.astype(np.float64)
+    out = L.sinkhorn_vectors_sparse_internal(D.copy(), xs.copy(), q.copy(), ys.copy(), np.ascontiguousarray(cost))
+    u, v, K = L.sinkhorn_plan_batch(q.copy(), D.copy(), np.ascontiguousarray(cost))
+    return {"out": tol_list(out), "u": tol_list(u.T), "v": tol_list(v.T), "K": tol_list(K)}
+
+
+def run_approx(case):
+    """ApproximateWassersteinVectorizer: fit on one collection, transform another (stored entries as given, explicit
+    zeros kept); returns the SVD data the model takes as input and both outputs."""
+    V_ = np.array(case["vectors"], dtype=np.float64).reshape(case["N"], case["d"])
+    m = V.ApproximateWassersteinVectorizer(n_components=case["n_components"], normalization_power=case["power"],
+                                           random_state=case["random_state"])
+    Xf = build_sparse({"n": len(case["fit_rows"]), "N": case["N"], "rows": case["fit_rows"], "fmt": "csr"})
+    m.fit(Xf, vectors=V_.copy())
+    Xt = build_sparse({"n": len(case["rows"]), "N": case["N"], "rows": case["rows"], "fmt": case.get("fmt", "csr")})
+    out = m.transform(Xt)
+    return {"out": tol_list(out), "components": tol_list(m.components_), "singular_values": tol_list(m.singular_values_)}
+
+
 payload = json.load(open(sys.argv[1]))
 res = []
 try:
@@ -345,6 +373,10 @@ try:
         try:
             if item["type"] == "scenario":
                 res.append(run_scenario(item))
+            elif item["type"] == "sinkrow":
+                res.append(run_sinkrow(item))
+            elif item["type"] == "approxrow":
+                res.append(run_approx(item))
             else:
                 res.append(run_pipeline(item))
         except Exception as e:
